@@ -146,13 +146,7 @@ func runReplayTest(repo, src string, race bool) (string, bool) {
 	cmd.Stdout = &out
 	cmd.Stderr = &out
 	cmd.Run()
-	// the package's own test init leaves /tmp/pongo2_* files behind: remove the ones created by this run
-	matches, _ := filepath.Glob("/tmp/pongo2_*")
-	for _, m := range matches {
-		if fi, err := os.Stat(m); err == nil && fi.ModTime().After(start.Add(-time.Second)) {
-			os.Remove(m)
-		}
-	}
+	_ = start
 	s := out.String()
 	if race && strings.Contains(s, "WARNING: DATA RACE") {
 		s += "\nREPRODUCED: the race detector reports a data race between concurrent executions (see output)\n"
